@@ -84,6 +84,7 @@ InterpreterEnv::InterpreterEnv(std::vector<valtype>& stack_in, const CScript& sc
 , curr_op_seq(0)
 , done(pc == pend)
 , tce(nullptr)
+, scriptsig_ran(false)
 , has_op_success(false)
 {
     sigversion = sigversion_in;
@@ -274,6 +275,7 @@ bool StepScript(InterpreterEnv& env)
             return set_error(serror, SCRIPT_ERR_SCRIPT_SIZE);
         script = env.successor_script;
         env.successor_script.clear();
+        env.scriptsig_ran = true;
         pc = env.pbegincodehash = script.begin();
         pend = script.end();
         env.curr_op_seq++;
@@ -301,6 +303,28 @@ bool StepScript(InterpreterEnv& env)
 
     if (!vfExec.empty())
         return set_error(serror, SCRIPT_ERR_UNBALANCED_CONDITIONAL);
+
+    // An output (or P2SH redeem script) that is a witness program has been evaluated as an ordinary script: the
+    // input carries no witness (with one, the witness script is what the session runs). Validation hands the
+    // program to the witness rules all the same, and those do not accept an empty witness for the known programs.
+    int witnessversion;
+    std::vector<unsigned char> witnessprogram;
+    if (env.scriptsig_ran && env.sigversion == SigVersion::BASE && (env.flags & SCRIPT_VERIFY_WITNESS) && script.IsWitnessProgram(witnessversion, witnessprogram)) {
+        const bool wrapped = !env.p2shstack.empty(); // the program is the redeem script of a P2SH output
+        if (!wrapped && env.scriptIn.size() != 0)
+            return set_error(serror, SCRIPT_ERR_WITNESS_MALLEATED);
+        if (wrapped && env.scriptIn != CScript() << std::vector<unsigned char>(script.begin(), script.end()))
+            return set_error(serror, SCRIPT_ERR_WITNESS_MALLEATED_P2SH);
+        if (witnessversion == 0) {
+            if (witnessprogram.size() == WITNESS_V0_SCRIPTHASH_SIZE) return set_error(serror, SCRIPT_ERR_WITNESS_PROGRAM_WITNESS_EMPTY);
+            if (witnessprogram.size() == WITNESS_V0_KEYHASH_SIZE) return set_error(serror, SCRIPT_ERR_WITNESS_PROGRAM_MISMATCH);
+            return set_error(serror, SCRIPT_ERR_WITNESS_PROGRAM_WRONG_LENGTH);
+        } else if (witnessversion == 1 && witnessprogram.size() == WITNESS_V1_TAPROOT_SIZE && !wrapped) {
+            if (env.flags & SCRIPT_VERIFY_TAPROOT) return set_error(serror, SCRIPT_ERR_WITNESS_PROGRAM_WITNESS_EMPTY);
+        } else if (env.flags & SCRIPT_VERIFY_DISCOURAGE_UPGRADABLE_WITNESS_PROGRAM) {
+            return set_error(serror, SCRIPT_ERR_DISCOURAGE_UPGRADABLE_WITNESS_PROGRAM);
+        }
+    }
 
     return set_success(serror);
 }
